@@ -63,11 +63,11 @@ Theorem C01_phi_genic_normal_form : forall m1 ms nu theta0 gamma beta, gamma <> 
 Proof. exact phi_genic_std. Qed.
 
 (** general dominance, quadrature oracle = the integral.  M = gamma 2 (h + (1-2h) x) x(1-x); the flux is the same at every x *)
-Theorem C01_general_h_is_stationary : forall (quad : (R -> R) -> R -> R -> R),
+Theorem C01_general_h_is_stationary : forall (ovf : R) (quad : (R -> R) -> R -> R -> R),
   (forall f a b, quad f a b = RInt f a b) ->
   forall nu theta0 gamma h beta x, 0 < nu -> 0 < beta ->
   let b := bR beta in let g := gamma * nu * b in let K := nu * theta0 * b in
-  (0 < x < 1 -> x * (1 - x) * (general_raw quad g h (general_int0 quad g h) x * (1 / (x * (1 - x))) * nu * theta0 * bfac beta)
+  (0 < x < 1 -> x * (1 - x) * (general_raw ovf quad g h (general_int0 ovf quad g h) x * (1 / (x * (1 - x))) * nu * theta0 * bfac beta)
                 = Gh K g h x) /\
   is_derive (Gh K g h) x (Gh1 K g h x) /\
   gamma * 2 * (h + (1 - 2 * h) * x) * Gh K g h x - Gh1 K g h x / (2 * nu * b) = theta0 / 2 * / RInt (eQ g h) 0 1 /\
@@ -75,11 +75,11 @@ Theorem C01_general_h_is_stationary : forall (quad : (R -> R) -> R -> R -> R),
 Proof. exact general_h_is_stationary_lemma. Qed.
 Print Assumptions C01_general_h_is_stationary.
 
-Theorem C01_general_h_at_half_is_genic : forall (quad : (R -> R) -> R -> R -> R),
+Theorem C01_general_h_at_half_is_genic : forall (ovf : R) (quad : (R -> R) -> R -> R -> R),
   (forall f a b, quad f a b = RInt f a b) ->
   forall g x, g <> 0 -> -300 < g ->
-  general_raw quad g (1 / 2) (general_int0 quad g (1 / 2)) x * (1 / (x * (1 - x))) = genic_pt g x /\
-  (qadjust g = 0 -> g < 300 -> 1 / general_int0 quad g (1 / 2) = genic_limit g).
+  general_raw ovf quad g (1 / 2) (general_int0 ovf quad g (1 / 2)) x * (1 / (x * (1 - x))) = genic_pt g x /\
+  (qadjust ovf g = 0 -> g < 300 -> 1 / general_int0 ovf quad g (1 / 2) = genic_limit g).
 Proof. exact general_h_at_half_is_genic_lemma. Qed.
 
 Theorem C01_phi_nonneg : forall m1 ms nu theta0 gamma beta,
